@@ -18,10 +18,22 @@ def is_not_too_large(event, config):
         raise StorageError("invalid: 280 characters should be enough for anybody")
 
 
+def _is_lower_hex(value, length):
+    return (
+        isinstance(value, str)
+        and len(value) == length
+        and all(c in "0123456789abcdef" for c in value)
+    )
+
+
 def is_signed(event, config):
     """
     Ensure the event is correctly formatted and signed
     """
+    # NIP-01: pubkey and sig are lowercase hex. bytes.fromhex() also takes upper case and embedded whitespace,
+    # but such an event would be stored as bytes and served in lowercase: not the event that was signed
+    if not (_is_lower_hex(event.pubkey, 64) and _is_lower_hex(event.sig, 128)):
+        raise StorageError("invalid: Bad signature")
     if not event.verify():
         raise StorageError("invalid: Bad signature")
     # verify() checks the signature against the computed hash, not against the id that was sent
